@@ -6,6 +6,7 @@ import (
 	"runtime"
 	"sort"
 	"strings"
+	"time"
 
 	"ibcheck/eng"
 	"ibcheck/rep"
@@ -78,4 +79,40 @@ func firstFrames(st string) string {
 		}
 	}
 	return strings.Join(out, " <- ")
+}
+
+// borrow runs part of another property's rule set on a scratch report and imports the
+// obligations whose key has the given prefix under a rule id of the current property: a
+// necessary condition shared by two properties is decided once and claimed by both, so that
+// each property's own check reports a change that breaks it.
+func (c *Ctx) borrow(run func(*Ctx), fromPrefix, toRule, ruleText string) int {
+	scratch := rep.New(c.R.Prop, c.R.Tier, c.R.VerifDir, time.Now())
+	scratch.Quiet = true
+	c2 := &Ctx{P: c.P, R: scratch, Tier: c.Tier}
+	func() {
+		defer func() {
+			if x := recover(); x != nil {
+				c.R.Fatal("CHECKER-PANIC in borrowed clause %s: %v", fromPrefix, x)
+			}
+		}()
+		run(c2)
+	}()
+	c.R.Rule(toRule, ruleText)
+	n := 0
+	for _, o := range scratch.Obs {
+		if !strings.HasPrefix(o.Key, fromPrefix) {
+			continue
+		}
+		n++
+		construct := strings.TrimPrefix(strings.TrimPrefix(o.Key, fromPrefix), "/")
+		switch o.Outcome {
+		case rep.Discharged:
+			c.R.Ok(toRule, construct, o.Site, "%s", o.Detail)
+		case rep.Violated:
+			c.R.Bad(toRule, construct, o.Site, "%s", o.Detail)
+		default:
+			c.R.Undecided(toRule, construct, o.Site, "%s", o.Detail)
+		}
+	}
+	return n
 }
